@@ -88,6 +88,9 @@ func spellings(canon string, cwd string, r interface{ Intn(int) int }, n int) []
 			if strings.HasPrefix(u.Path, cwd+"/") {
 				names = append(names, "relative-path")
 			}
+			if u.EscapedPath() != u.Path && !strings.ContainsAny(u.Path, " %?#") {
+				names = append(names, "sub-delims-as-written") // file:///w/a(b)/x.json for file:///w/a%28b%29/x.json
+			}
 		}
 		chosen := map[string]bool{}
 		for i, m := 0, 1+r.Intn(4); i < m; i++ {
@@ -106,7 +109,10 @@ func spellings(canon string, cwd string, r interface{ Intn(int) int }, n int) []
 		if chosen["bare-absolute-path"] || chosen["relative-path"] {
 			delete(chosen, "upper-case-scheme") // no scheme to write
 		}
-		p := u.Path
+		p := u.EscapedPath()
+		if chosen["sub-delims-as-written"] || chosen["bare-absolute-path"] || chosen["relative-path"] {
+			p = u.Path // plain paths are not URLs: nothing is escaped in them
+		}
 		relative := chosen["relative-path"]
 		if relative {
 			p = strings.TrimPrefix(p, cwd+"/")
@@ -121,7 +127,10 @@ func spellings(canon string, cwd string, r interface{ Intn(int) int }, n int) []
 		}
 		if chosen["double-slash"] {
 			if len(segs) > 1 {
-				at := 1 + r.Intn(len(segs)-1)
+				at := r.Intn(len(segs)) // also right after the authority: file:////w/a/root.json
+				if at == 0 && (relative || chosen["file-one-slash"] || chosen["bare-absolute-path"]) {
+					at = 1 // "file://w/…" and "//w/…" would name a host
+				}
 				segs[at] = "/" + segs[at]
 			} else {
 				delete(chosen, "double-slash")
@@ -254,7 +263,8 @@ func c11Run(env *core.Env, idx int) core.CaseResult {
 	if env.Workdir != "" {
 		// the working directory changes from case to case: a relative spelling is taken against the current one
 		k := (idx / 3) % 3
-		d := fmt.Sprintf("%s/cwd%d", env.Workdir, k)
+		// two of the three directories carry characters that net/url escapes by default but accepts as written
+		d := fmt.Sprintf("%s/%s", env.Workdir, []string{"cwd0", "cw(1)", "my specs!2'*"}[k])
 		if (idx/9)%2 == 1 {
 			// every other round the working directory is reached through a symbolic link, and the documents exist on disk there:
 			// the logical path is the location, however it is spelled
@@ -282,7 +292,7 @@ func c11Run(env *core.Env, idx int) core.CaseResult {
 	var prefix, kind string
 	switch idx % 3 {
 	case 0:
-		prefix, kind = "file://"+cwd, "file"
+		prefix, kind = "file://"+(&url.URL{Path: cwd}).EscapedPath(), "file" // the canonical location: default escaping
 	case 1:
 		prefix, kind = "http://root.example/base", "http"
 	default:
@@ -292,7 +302,7 @@ func c11Run(env *core.Env, idx int) core.CaseResult {
 	res.Count("scheme."+kind, 1)
 	if symlinked && kind == "file" {
 		for u, d := range w.Docs {
-			p := strings.TrimPrefix(u, "file://")
+			p := mustPath(u)
 			_ = os.MkdirAll(path.Dir(p), 0o755)
 			b, _ := json.Marshal(d)
 			_ = os.WriteFile(p, b, 0o644)
